@@ -311,6 +311,8 @@ func (r *runner) doReq(st *Step) {
 		if len(ages) > 0 {
 			if n, err := strconv.ParseInt(ages[0], 10, 64); err == nil && n >= 0 {
 				ev["age"] = capv(n)
+			} else if allDigits(ages[0]) {
+				ev["age"] = CAP
 			} else {
 				ev["age"] = Invalid
 			}
@@ -327,24 +329,27 @@ func (r *runner) doReq(st *Step) {
 		ev["clen"] = capv(resp.ContentLength)
 		w.mu.Lock()
 		sr := w.sent[tok]
-		var tagE2E http.Header
-		if tag != "" {
-			tagE2E = w.tagHdr[tag]
+		var want http.Header
+		if sr != nil {
+			// 304s received in this exchange (foreground) or by its background
+			// revalidation freshen what is expected from now on
+			for _, t304 := range e.fg304 {
+				w.apply304(tok, t304)
+			}
+			want = w.effHdr[tok].Clone()
+			// the background revalidation of this very exchange only affects later ones
+			for _, t304 := range w.bg304[x] {
+				w.apply304(tok, t304)
+			}
+			delete(w.bg304, x)
+			w.servedX[x] = tok
 		}
 		w.mu.Unlock()
 		if sr != nil {
 			ev["bodyok"] = b2i(string(body) == string(sr.body))
 			// end-to-end header comparison against the response it was stored
-			// from, with fields replaced by the freshening 304 (identified by tag)
+			// from, with fields replaced by the 304s that freshened it since
 			extra, missing := []string{}, []string{}
-			want := sr.e2e.Clone()
-			if tagE2E != nil {
-				for k, v := range tagE2E {
-					if k != "Content-Length" {
-						want[k] = v
-					}
-				}
-			}
 			for k, v := range want {
 				if cacheOwn[k] || k == "Content-Length" || k == "Date" {
 					continue
@@ -392,6 +397,18 @@ func (r *runner) doReq(st *Step) {
 	if st.Cancel == 1 {
 		cancel()
 	}
+}
+
+func allDigits(s string) bool {
+	if s == "" {
+		return false
+	}
+	for i := 0; i < len(s); i++ {
+		if s[i] < '0' || s[i] > '9' {
+			return false
+		}
+	}
+	return true
 }
 
 func transportGoroutines() int {
